@@ -145,6 +145,7 @@ func (m *Machine) vndCall(name string, args []Value, caller *frame) Value {
 		m.watchEpoch = m.epoch
 		m.watching = true
 		m.callValue(f, nil, caller, nil)
+		m.lsFinish()
 		m.watching = false
 		return nil
 	case "Epoch":
@@ -154,6 +155,9 @@ func (m *Machine) vndCall(name string, args []Value, caller *frame) Value {
 		on := args[0].(*Term)
 		if on.op != OpConst {
 			m.unsupported("WatchWrites with symbolic argument")
+		}
+		if on.k == 0 && m.watching {
+			m.lsFinish()
 		}
 		m.watching = on.k != 0
 		m.watchEpoch = m.epoch
